@@ -81,6 +81,60 @@ def segmented(auth=None, cuts=(1, 2, 3)):
     return out
 
 
+FRAMING_CFG = """CONSTANTS Base = 2 Conn = {1, 2} MaxSeg = %d Packets <- GPackets
+SPECIFICATION GSpec
+CONSTRAINT Dump
+CHECK_DEADLOCK FALSE
+"""
+
+
+def framing_model(run):
+    """the design model of the byte-stream layer, and its negative control (one header buffer shared by all decoders must break Faithful)"""
+    import vlib
+    run.model_check("MC_Framing", "MC_Framing.cfg")
+    neg = run.tlc("MC_Framing", "MC_Framing_shared.cfg", allow_violation=True, name="negative-control:Shared=TRUE")
+    if "Faithful" not in neg.violated:
+        raise vlib.Inconclusive("negative control failed: Framing with a shared header buffer does not violate Faithful")
+
+
+def framing(run, n, maxseg=3, auth=None):
+    """TLC-generated delivery schedules (FramingGen: every way to cut two connections' streams at the offsets that matter to a decoder,
+    up to maxseg segments each, in every order across the connections), realised by the driver's `segs` operation.  The two connections
+    are 20 connections apart, so that they are set up by the same worker."""
+    import vlib
+    hs = vlib.gen_behaviours(run, "FramingGen", "Gen_Framing_%d.cfg" % maxseg, FRAMING_CFG % maxseg)
+    hs = [h for h in hs if len(h) > 2]
+    step = max(1, len(hs) // n)
+    hs = hs[run.seed % step:: step][:n]
+
+    def cred(i):
+        if not auth:
+            return {}
+        e = auth[i % len(auth)]
+        return {"user": e["u"], "pass": e["p"]}
+    out = []
+    for k, h in enumerate(hs):
+        # nothing is delivered to a connection while its own stream is half-sent (its client could not answer in the middle of a
+        # packet): connection 1 publishes to the watcher (connection 10) and subscribes to a topic that is used afterwards only
+        ops = [dict({"op": "connect", "c": 1, "n": 1, "client": "first", "ka": 6000}, **cred(0))]
+        ops += [dict({"op": "connect", "c": 10 + i, "n": 1, "client": "filler%d" % i, "ka": 6000}, **cred(0 if i == 0 else i + 1)) for i in range(19)]
+        ops.append({"op": "sub", "c": 10, "id": 1, "fs": [{"f": ["fr", "a"], "q": 1}]})
+        s1 = [{"op": "sub", "id": 3, "fs": [{"f": ["fr", "c"], "q": 1}], "mlen": 1},
+              {"op": "pub", "t": ["fr", "a"], "p": "fr-own-%d" % k, "q": 1, "r": False, "id": 7, "size": 300, "mlen": 3},
+              {"op": "send", "kind": "PINGREQ", "mlen": 0}]
+        s2 = [dict({"op": "connect", "n": 1, "client": "late-" + "x" * 140, "ka": 6000, "mlen": 2}, **cred(1)),
+              {"op": "sub", "id": 4, "fs": [{"f": ["fr", "b"], "q": 1}], "mlen": 1}]
+        ops.append({"op": "segs", "streams": [{"c": 1, "pkts": s1}, {"c": 2, "pkts": s2}], "plan": h})
+        ops.append({"op": "pub", "c": 2, "t": ["fr", "b"], "p": "fr-late-%d" % k, "q": 1, "r": False, "id": 9})
+        ops.append({"op": "pub", "c": 10, "t": ["fr", "c"], "p": "fr-cross-%d" % k, "q": 1, "r": False, "id": 10})
+        ops.append({"op": "quiesce"})
+        s = {"nodes": [1], "ops": ops}
+        if auth:
+            s["auth"] = auth
+        out.append(s)
+    return out
+
+
 def context(scn, line, k=14):
     keep = [e for e in scn[:line] if e["op"] not in ("log.consume", "log.get", "gossip.out", "gossip.deliver", "conn.deadline",
                                                       "ack.ack.call", "ack.ack.ret", "writer.done", "publish.done", "auth")]
